@@ -10,8 +10,10 @@ import (
 	"strings"
 	"sync"
 	"sync/atomic"
+	"syscall"
 	"time"
 
+	"github.com/form3tech-oss/f1/v2/internal/verifhook"
 	"github.com/form3tech-oss/f1/v2/pkg/f1"
 	f1testing "github.com/form3tech-oss/f1/v2/pkg/f1/testing"
 )
@@ -63,7 +65,26 @@ func init() {
 				p[kv[:i]] = kv[i+1:]
 			}
 		}
-		args := []string{"run", p["mode"], "-v"}
+		args := []string{"run", p["mode"]}
+		// logfile=good|bad: run without --verbose, the scenario log goes to LOG_FILE_PATH (bad: a path that cannot be opened)
+		var logDir string
+		if lf, ok := p["logfile"]; ok {
+			d, err := os.MkdirTemp("", "f1verif-log")
+			if err != nil {
+				return "harness-tempdir"
+			}
+			logDir = d
+			defer os.RemoveAll(d)
+			if lf == "bad" {
+				os.Setenv("LOG_FILE_PATH", d) // a directory: the parent exists, opening it as a file fails
+			} else {
+				os.Setenv("LOG_FILE_PATH", filepath.Join(d, "scenario.log"))
+			}
+			defer os.Unsetenv("LOG_FILE_PATH")
+		} else {
+			args = append(args, "-v")
+		}
+		_ = logDir
 		str := func(key, flag string) {
 			if v, ok := p[key]; ok {
 				args = append(args, flag, unhex(v))
@@ -87,6 +108,13 @@ func init() {
 			if v, ok := p["maxfailrate"]; ok {
 				fmt.Fprintf(&sb, "  max-failures-rate: %s\n", v)
 			}
+			if v, ok := p["fstart"]; ok { // the schedule began <v> ms ago
+				fmt.Fprintf(&sb, "schedule:\n  stage-start: %s\n", time.Now().Add(-time.Duration(atoi(v))*time.Millisecond).UTC().Format(time.RFC3339Nano))
+			}
+			if p["fshared"] == "1" { // every stage inherits the same parameter from the default section
+				sb.WriteString("default:\n  parameters:\n    F1VERIF_CLI_SHARED: all\n")
+				fileParams = append(fileParams, "F1VERIF_CLI_SHARED")
+			}
 			sb.WriteString("stages:\n")
 			for i, st := range strings.Split(p["fstages"], ";") {
 				f := strings.Split(st, ":")
@@ -98,7 +126,9 @@ func init() {
 				case "u":
 					fmt.Fprintf(&sb, "  - mode: users\n    duration: %sms\n    concurrency: %s\n", f[1], f[2])
 				}
-				fmt.Fprintf(&sb, "    parameters:\n      %s: v%d\n", key, i)
+				if p["fshared"] != "1" {
+					fmt.Fprintf(&sb, "    parameters:\n      %s: v%d\n", key, i)
+				}
 			}
 			dir, err := os.MkdirTemp("", "f1verif-cli")
 			if err != nil {
@@ -181,20 +211,81 @@ func init() {
 				_ = n
 				if failEvery > 0 && id%failEvery == 0 {
 					truthF.Add(1)
-					t.FailNow()
+					switch p["failkind"] {
+					case "panicerr":
+						panic(fmt.Errorf("scripted error panic"))
+					case "panicstr":
+						panic("scripted string panic")
+					case "nilmap":
+						var m map[string]int
+						m["x"] = 1 //nolint
+					case "errorf":
+						t.Errorf("scripted %s", "errorf")
+						return
+					default:
+						t.FailNow()
+					}
 				}
 				truthS.Add(1)
 			}
 		}
 		sh := &summaryHandler{}
-		app := f1.New().WithLogger(slog.New(sh)).Add("s", scenarioFn)
+		topFn := f1testing.ScenarioFn(scenarioFn)
+		var laterRan atomic.Int64
+		if p["combine"] == "1" { // the scenario is the first component of a combined one; the second counts its own calls
+			topFn = f1.CombineScenarios(scenarioFn, func(*f1testing.T) f1testing.RunFn {
+				return func(*f1testing.T) { laterRan.Add(1) }
+			})
+		}
+		app := f1.New().WithLogger(slog.New(sh)).Add("s", topFn)
+		// ticks accepted by the trigger pool (yield point pool.trigger.accepted)
+		var ticks atomic.Int64
+		verifhook.Set(func(point string) {
+			if point == "pool.trigger.accepted" {
+				ticks.Add(1)
+			}
+		})
+		defer verifhook.Set(nil)
+		exec := func() (error, bool) {
+			done := make(chan error, 1)
+			go func() { done <- app.ExecuteWithArgs(args) }()
+			select {
+			case err := <-done:
+				return err, true
+			case <-time.After(18 * time.Second):
+				return nil, false
+			}
+		}
+		if p["twice"] == "1" { // a first, unobserved execution on the same F1 instance
+			if _, ok := exec(); !ok {
+				return "never-returned"
+			}
+			setups.Store(0)
+			started.Store(0)
+			maxflight.Store(0)
+			truthS.Store(0)
+			truthF.Store(0)
+			laterRan.Store(0)
+			ticks.Store(0)
+			sh.mu.Lock()
+			sh.banner, sh.stats = "", nil
+			sh.mu.Unlock()
+		}
 		t0 := time.Now()
-		done := make(chan error, 1)
-		go func() { done <- app.ExecuteWithArgs(args) }()
-		var err error
-		select {
-		case err = <-done:
-		case <-time.After(18 * time.Second):
+		if v, ok := p["sigint"]; ok { // interrupt the run like Ctrl-C, <v> ms after its setup has run
+			go func() {
+				for i := 0; i < 4000 && setups.Load() == 0; i++ {
+					time.Sleep(500 * time.Microsecond)
+				}
+				if setups.Load() == 0 {
+					return // never send a signal nobody is listening for
+				}
+				time.Sleep(time.Duration(atoi(v)) * time.Millisecond)
+				_ = syscall.Kill(os.Getpid(), syscall.SIGINT)
+			}()
+		}
+		err, ok := exec()
+		if !ok {
 			return "never-returned"
 		}
 		ret := time.Since(t0)
@@ -222,9 +313,9 @@ func init() {
 		if e == 1 && setups.Load() == 0 {
 			verdict = "reject"
 		}
-		return fmt.Sprintf("%s err=%d banner=%s stats=%d/%d/%d truth=%d/%d setups=%d started=%d maxflight=%d ret=%d envAfter=%s",
+		return fmt.Sprintf("%s err=%d banner=%s stats=%d/%d/%d truth=%d/%d setups=%d started=%d maxflight=%d ret=%d envAfter=%s ticks=%d later=%d",
 			verdict, e, banner, st["successful"], st["failed"], st["dropped"], truthS.Load(), truthF.Load(), setups.Load(),
-			started.Load(), maxflight.Load(), ret.Milliseconds(), envAfter)
+			started.Load(), maxflight.Load(), ret.Milliseconds(), envAfter, ticks.Load(), laterRan.Load())
 	})
 }
 
